@@ -211,10 +211,13 @@ theorem hash_no_fault (args : List Val) : ctorCall hashCtor args ≠ .fault := b
     | n + 3, hcr => simp [hashCtor] at hcr
 
 /-- `InitType.New` hands the arguments to the same constructor -/
-theorem initCall_no_fault (c : Ctor) (h : ∀ args, ctorCall c args ≠ .fault) (args : List Val) : initCall c args ≠ .fault := by
+theorem initCall_no_fault (c : Ctor) (h : ∀ args, ctorCall c args ≠ .fault) (ia args : List Val) :
+    initCall c ia args ≠ .fault := by
   unfold initCall
   split
-  · exact h args
-  · split <;> exact h _
+  · exact h _
+  · split
+    · exact h args
+    · split <;> exact h _
 
 end Pcore.Dispatch.Alpha
